@@ -222,6 +222,18 @@ def main():
             fmcbuild.build_harness(h.get("src", hname), h["kind"], libdir, extra_wraps=h.get("wraps", ()), lib_objs=h.get("objs"), defs=h.get("defs", ()), extra_srcs=h.get("extra_srcs", ()), link_flags=h.get("link_flags", ()), variant=h.get("variant", ""))
         print("built %d harnesses in %s" % (len(HARNESSES), libdir))
         return 0
+    if sys.argv[1] == "selftest":
+        # the explorer must be able to FAIL: store-buffering litmus is unreachable under SC, reachable under TSO
+        libdir = fmcbuild.build_lib()
+        h = HARNESSES["h_litmus"]
+        exe = fmcbuild.build_harness("h_litmus", h["kind"], libdir)
+        ok = True
+        for mode in ("0", "1"):
+            sc = subprocess.run([exe, "-P2", "-Dmode=" + mode], capture_output=True).returncode
+            tso = subprocess.run([exe, "-P1", "-S1", "-Dmode=" + mode], capture_output=True).returncode
+            print("litmus SB mode=%s: SC P2 -> rc %d (expect 0), TSO P1 D1 -> rc %d (expect 1)" % (mode, sc, tso))
+            ok = ok and sc == 0 and tso == 1
+        return 0 if ok else 2
     if sys.argv[1] == "check":
         prop = sys.argv[2]
         tier = os.environ.get("VERIF_TIER", "quick")
